@@ -21,8 +21,8 @@ TEXT = {
          "Per run: result coordinates compared bit for bit with the model; the provenance predicates of the statement are evaluated in exact rational arithmetic on the implementation's output (tolerance 0 on exact families). Inputs sampled."),
  "C05": ("translation_validation", "4 (C05)", "Lean model + correspondence; partition formulas over the five results decided by the region comparator; exact shoelace areas; theorems C05_pointwise / C05_of_C01 / tables",
          "Five calls per operand pair; pairwise disjointness, cover of the union and xor = union of differences are decided for all points of the checked cells; area identities exactly on exact runs. Theorems: the identities follow pointwise from C01; table consistency for every flag combination."),
- "C06": ("translation_validation", "4 (C06)", "Lean model + correspondence; theorem C06_empty for every input; region comparator and ring-set equality for swap / self / disjoint cases",
-         "Theorem (all inputs, all roundings): an operand without edges takes the shortcut and yields the listed value. Per run: swap, self-operations, empty operands (no polygons / empty rings), disjoint and touching boxes, compared as ring sets on exact runs and as regions otherwise."),
+ "C06": ("translation_validation", "4 (C06)", "Lean model + correspondence; theorems C06_empty (every input), C06_tables_symmetric / C06_tables_self (every flag combination); region comparator and ring-set equality for swap / self / disjoint cases",
+         "Theorems: (all inputs, all roundings) an operand without edges takes the shortcut and yields the listed value; (all edge types and flags) the selection and transition tables of intersection, union and xor ignore is_subject, and a coincident same-orientation pair yields one edge for intersection/union and none for difference/xor. Per run: swap, self-operations, empty operands (no polygons / empty rings), disjoint and touching boxes, compared as ring sets on exact runs and as regions otherwise."),
  "C07": ("translation_validation", "4 (C07)", "theorems C07_wrapping / C07_repeated_vertices for every input; Lean model + correspondence over all four real trait impls; region comparator for rotations / reversals / permutations",
          "Theorems (all inputs, all roundings): wrapping, and repeated consecutive vertices change neither events, order, boxes nor the result. Per run: all four real trait implementations, rotations, reversals, permutations, repeats (up to 4x) compared as regions and, on exact runs, as ring sets."),
  "C08": ("translation_validation", "4 (C08)", "Lean model + correspondence on transformed operands; bit equality for 2^k scaling and integer translation; region comparator for the 8 axis symmetries",
